@@ -158,7 +158,7 @@ def w_in_playback(props=None, case=None):
     for s, oc in paths:
         b = body_calls(s); hk = hooks(s)
         obl.append(Obl('C02/%s/no_cassette_or_recording_writes' % U, 'C02', s, no_cassette_events(s), oc))
-        obl.append(Obl('C09/%s/flag_restored' % U, 'C09', s, flag_restored(s, selfv), oc))
+        obl.append(Obl('C09/%s/flag_restored' % U, ('C09', 'C05', 'C02', 'C01'), s, flag_restored(s, selfv), oc))
         found = 'found_index' in s.g
         kf_exc = [t for t in hk if t['name'] in ('alias_params_resolver', 'fallback_aliases') and t['outcome'][0] == 'raise']
         if found:
@@ -226,7 +226,7 @@ def w_in_recording(props=None, case=None):
     paths = norm(ex.block(node.body, st)); U = 'W_in.recording'
     for s, oc in paths:
         transparency(obl, U, s, oc, fr)
-        obl.append(Obl('C09/%s/flag_restored' % U, 'C09', s, flag_restored(s, selfv), oc))
+        obl.append(Obl('C09/%s/flag_restored' % U, ('C09', 'C05', 'C02', 'C01'), s, flag_restored(s, selfv), oc))
         writes = [ev for ev in s.events if ev[0] == 'setitem']
         written = z3.Or(*[ev[1] == s.g['old']['active'] for ev in writes]) if writes else z3.BoolVal(False)
         discarded = s.rd(selfv, '_active_recording') == NONE
@@ -282,7 +282,7 @@ def w_out(mode='playback', props=None, case=None):
     sent = z3.If(Val.bv(fr['static_function']), args0, z3.SubSeq(args0, 1, z3.Length(args0) - 1))
     for s, oc in paths:
         b = body_calls(s)
-        obl.append(Obl('C09/%s/flag_restored' % U, 'C09', s, flag_restored(s, selfv), oc))
+        obl.append(Obl('C09/%s/flag_restored' % U, ('C09', 'C05', 'C02', 'C01'), s, flag_restored(s, selfv), oc))
         prep = hooks(s, 'prepare_output_for_recording')
         hookfail = any(t['outcome'][0] == 'raise' for t in prep)
         if mode == 'playback':
@@ -416,10 +416,10 @@ def w_op_recording(props=None, case=None):
             # skipped class: pure pass-through, nothing created
             transparency(obl, U + '.skipped', s, oc, fr)
             obl.append(Obl('C17/%s/skipped_class_starts_no_recording' % U, 'C17', s, no_cassette_events(s), oc))
-            obl.append(Obl('C09/%s/idle_after' % U, 'C09', s, idle(s, selfv), oc))
+            obl.append(Obl('C09/%s/idle_after' % U, ('C09', 'C05', 'C17'), s, idle(s, selfv), oc))
             continue
         transparency(obl, U, s, oc, fr)
-        obl.append(Obl('C09/%s/idle_after' % U, 'C09', s, idle(s, selfv), oc))
+        obl.append(Obl('C09/%s/idle_after' % U, ('C09', 'C05', 'C17'), s, idle(s, selfv), oc))
         if r is None:
             obl.append(Obl('C05/%s/recording_created' % U, 'C05', s, z3.BoolVal(False), oc)); continue
         cnt = z3.IntVal(0)
@@ -540,7 +540,7 @@ def play(props=None):
     for s, oc in paths:
         b = body_calls(s, 'playback_function')
         idle_ = z3.And(idle(s, selfv), s.seq(s.rd(selfv, '_playback_outputs')) == z3.Empty(SeqV))
-        obl.append(Obl('C09/%s/idle_after_play' % U, 'C09', s, idle_, oc))
+        obl.append(Obl('C09/%s/idle_after_play' % U, ('C09', 'C02', 'C01', 'C03'), s, idle_, oc))
         obl.append(Obl('C02/%s/no_cassette_events' % U, 'C02', s, no_cassette_events(s), oc))
         nofetch = any(t['kind'] == 'Iface' and t['name'] == 'get_recording' for t in s.trace)
         if nofetch:
